@@ -237,7 +237,9 @@ func (p *Parser) ParseRemainingExpressionWithPrecedence(left ast.Expression, pre
 		}
 		// An update expression (x++, x--) cannot be called or accessed:
 		// `a++` followed by `(`, `[` or `.` on the next line is a new statement
-		if _, isPostfix := left.(*ast.PostfixExpression); isPostfix {
+		if p.CurrentToken.Type == token.INCREMENT || p.CurrentToken.Type == token.DECREMENT {
+			// (the current token is ++/-- only right after a postfix operator, at any nesting
+			// of the operand: -a++, b + a++)
 			switch p.PeekToken.Type {
 			case token.LPAREN, token.LBRACKET, token.DOT:
 				return left
